@@ -240,6 +240,27 @@ def classify_loop(ctx, b, cfg, E, h, blocks):
                     txt = render(e, 3000)
                     if e[0] == "discr" and "join_next" in txt and any(z not in blocks or not _reaches_header(cfg, z, h, blocks) for z in list(tt["targets"]) + [tt["otherwise"]]):
                         return "iterator", "join_next().await"
+    # `while !found(&dir) { if !dir.pop() { fail } }`: every cycle removes the last component of a path; `pop`
+    # answers false at the root, which leaves the loop
+    pops = {x for x in blocks if b.blocks[x]["term"] and b.blocks[x]["term"]["k"] == "call" and re.search(r"std::path::PathBuf::pop$", callee_name(b.blocks[x]["term"]))
+            and cfg.innermost_loop(x) == h}
+    if pops:
+        leaves = False
+        for x in pops:
+            sw = cfg.succ[x][0] if cfg.succ[x] else None
+            tt = b.blocks[sw]["term"] if sw is not None else None
+            if tt and tt["k"] == "switch":
+                arms = dict(zip(tt["vals"], tt["targets"]))
+                f_arm = arms.get(0)
+                if f_arm is not None and (f_arm not in blocks or not _reaches_header(cfg, f_arm, h, blocks)):
+                    leaves = True
+        outside = set(range(cfg.n)) - set(blocks)
+        r = set()
+        for y in cfg.succ[h]:
+            if y in blocks and y not in pops:
+                r |= cfg.reach(y, avoid=outside | pops | {h})
+        if leaves and h not in pops and not any(h in cfg.succ[x] for x in r):
+            return "ancestor-walk", "pop()"
     # tree-cursor walk: every cycle through the header performs a TreeCursor move (first child / next
     # sibling / parent) - a finite tree is walked depth-first, each node entered once
     moves = {x for x in blocks if b.blocks[x]["term"] and b.blocks[x]["term"]["k"] == "call"
